@@ -131,8 +131,27 @@ var input = gprog.Val{"in": "x"}
 // Input is the fixed run input.
 func Input() gprog.Val { return input }
 
+// prepared is a history whose program has been built and compiled; exec runs the history on it (any number of
+// times: every run starts with an empty store and fresh records).
+type prepared struct {
+	t        *Trace
+	store    *memStore
+	rerun    map[string]bool
+	r        compose.Runnable[gprog.Val, gprog.Val]
+	maxCalls int
+}
+
 // Run executes the history.
 func Run(t *Trace) (*Result, []event, error) {
+	p, err := prepare(t)
+	if err != nil {
+		return nil, nil, err
+	}
+	res, evs := p.exec(nil, nil)
+	return res, evs, nil
+}
+
+func prepare(t *Trace) (*prepared, error) {
 	store := &memStore{m: map[string][]byte{}}
 	needState := len(t.Rerun) > 0 || t.Modify
 	rerun := map[string]bool{}
@@ -185,13 +204,34 @@ func Run(t *Trace) (*Result, []event, error) {
 	}
 	r, err := gprog.Compile(context.Background(), t.Prog, bo)
 	if err != nil {
-		return nil, nil, err
+		return nil, err
 	}
+	// every execution can be preceded and followed by at most one interrupt; a history that needs more calls
+	// than that makes no progress. (A tight cap also keeps values small: node outputs embed their inputs.)
+	om := (&gprog.Model{Script: t.Script}).Run(t.Prog, input)
+	maxCalls := 2*om.Execs + 6
+	if om.Err != "" && maxCalls > 12 {
+		maxCalls = 12
+	}
+	return &prepared{t: t, store: store, rerun: rerun, r: r, maxCalls: maxCalls}, nil
+}
+
+// exec runs the history call by call. inBody, when set, is called inside every node body (scheduler runs use it
+// to take time there).
+func (p *prepared) exec(inBody func(), note func()) (*Result, []event) {
+	if note == nil {
+		note = func() {}
+	}
+	t, store, rerun, r := p.t, p.store, p.rerun, p.r
+	store.mu.Lock()
+	store.m, store.sets, store.gets = map[string][]byte{}, 0, 0
+	store.mu.Unlock()
 	rec := gprog.NewRun(t.Script)
 	rn := &runner{lastIn: map[string]string{}}
 	attempts := map[string]int{}
 	res := &Result{}
 	rec.Body = func(ctx context.Context, path string, in gprog.Val) error {
+		note() // the order of the recorded events is part of the observation
 		rn.mu.Lock()
 		rn.events = append(rn.events, event{rn.call, "start", path, gprog.Canon(in)})
 		rn.lastIn[path] = gprog.Canon(in)
@@ -201,25 +241,24 @@ func Run(t *Trace) (*Result, []event, error) {
 			res.Aborted = append(res.Aborted, gprog.Entry{Path: path, In: gprog.Canon(in)})
 		}
 		rn.mu.Unlock()
+		note()
+		if inBody != nil {
+			inBody()
+		}
 		if first {
 			return compose.InterruptAndRerun
 		}
 		return nil
 	}
 	rec.After = func(ctx context.Context, path string) {
+		note()
 		rn.mu.Lock()
 		rn.events = append(rn.events, event{rn.call, "end", path, rn.lastIn[path]})
 		rn.mu.Unlock()
-	}
-	// every execution can be preceded and followed by at most one interrupt; a history that needs more calls
-	// than that makes no progress. (A tight cap also keeps values small: node outputs embed their inputs.)
-	om := (&gprog.Model{Script: t.Script}).Run(t.Prog, input)
-	maxCalls := 2*om.Execs + 6
-	if om.Err != "" && maxCalls > 12 {
-		maxCalls = 12
+		note()
 	}
 	for call := 0; ; call++ {
-		if call >= maxCalls {
+		if call >= p.maxCalls {
 			res.NoProg = true
 			break
 		}
@@ -259,7 +298,7 @@ func Run(t *Trace) (*Result, []event, error) {
 		}
 	}
 	res.Log = rec.Snapshot()
-	return res, rn.events, nil
+	return res, rn.events
 }
 
 // ---------------------------------------------------------------------------------------------------
